@@ -670,6 +670,7 @@ func sizeMarshalUnit(prog *Program, ms *MsgSchema, closure string, o smOpts) (u 
 	}()
 	e := &smEngine{c: c, ms: ms, closure: closure, sufs: map[string]*sufInfo{}, unit: u, o: o}
 	st := newState()
+	detectRoles(lit, closure)
 	xref := c.setupClosure(lit, st, ms)
 	e.x = PtrV{Ref: xref, Named: ms.Named}
 	c.loadStruct(st, e.x)
@@ -831,6 +832,7 @@ func sizeMarshalUnit(prog *Program, ms *MsgSchema, closure string, o smOpts) (u 
 	if closure == "marshal" {
 		acc = "i"
 	}
+	acc = role(acc)
 	for ob := range st.env {
 		if ob.Name() == acc && ob.Pos() > lit.Pos() && ob.Pos() < lit.End() {
 			if e.accObj == nil || ob.Pos() < e.accObj.Pos() {
